@@ -34,6 +34,7 @@ CONSTANTS
   Isolated0 = {}
   MembCids = {"m1", "m2"}
   MembTargets = {"c", "d"}
+  CrashNodes = {}
   Spares = {"d"}
   MaxDepth = 100
 CONSTRAINT Bound
